@@ -34,7 +34,7 @@ type vbDelOut struct {
 	Panic  string
 	Wanted int   // index of the pending block whose CID Sum returned (the payload is handed to the requester), else -1
 	Filled []int // pending blocks that went from empty to non-empty during this delivery
-	States []string
+	States map[int]string
 }
 
 type vbTrialOut struct {
@@ -119,7 +119,7 @@ func (e *vbExch) GetBlocks(_ context.Context, cids []cid.Cid) (<-chan blocks.Blo
 			}
 		}
 		if len(o.Filled) > 0 || o.Wanted >= 0 {
-			o.States = make([]string, len(e.blks))
+			o.States = map[int]string{}
 			for _, i := range o.Filled {
 				o.States[i] = e.w.refState(e.ids[i], e.blks[i])
 			}
